@@ -1141,6 +1141,28 @@ fn main() {
             println!("outputs={}", join(&outputs));
             println!("in_use={}", join(&in_use));
         }
+        // reopen_orphan : a closed database holds a table file no version refers to (leftover of a crashed flush); is it
+        // reclaimed by a reopen that has nothing else to do (log and manifest reused)?
+        "reopen_orphan" => {
+            use raindb::WriteOptions;
+            let mut o = raindb::DbOptions::with_memory_env();
+            o.db_path = "db".to_string();
+            o.create_if_missing = true;
+            o.reuse_log_files = true;
+            {
+                let db = raindb::DB::open(o.clone()).expect("open");
+                db.put(WriteOptions::default(), b"k".to_vec(), b"v".to_vec()).unwrap();
+            }
+            {
+                let mut f = o.filesystem_provider().create_file(&v::table_path(&o, 999), false).unwrap();
+                f.append(b"leftover").unwrap();
+            }
+            println!("before={}", join(&v::table_numbers(&o)));
+            {
+                let _db = raindb::DB::open(o.clone()).expect("reopen");
+            }
+            println!("after={}", join(&v::table_numbers(&o)));
+        }
         "vs_recover" => {
             // a database is created, written and closed; a fresh version set recovers from its files
             use raindb::WriteOptions;
